@@ -147,8 +147,17 @@ ev_send(int c, int i, int blocking)
 	env_aio_submit(&uaio_at(i));
 	int ready = !nni_list_empty(&sock.ready_pipes);
 	retry_at_send[c] = ctxs[c]->retry;
+	int idfail0 = env_idmap_failed;
 	req0_ctx_send(ctxs[c], &uaio_at(i));
 	kquiesce();
+#ifdef VH_FAULTPASS
+	if (env_idmap_failed && !idfail0) {
+		SCHECK(KDONE(i) && KRESULT(i) == NNG_ENOMEM, "C20: a request whose id cannot be allocated fails at once with NNG_ENOMEM");
+		SCHECK(nni_aio_get_msg(&uaio_at(i)) == umsg[i], "C20/C03: and the message stays with the caller");
+		SCHECK(ctxs[c]->request_id == 0 && ctxs[c]->req_msg == NULL, "C20: no half-made request is left in the context");
+		WITNESS("request refused: no id");
+	}
+#endif
 	if (KDONE(i) && KRESULT(i) == 0) {
 		gen[c]++;
 		prev_id[c]  = cur_id[c];
